@@ -22,7 +22,8 @@ from esrally import exceptions
 
 VERSIONS = re.compile(r"^(\d+)\.(\d+)\.(\d+)(?:-(.+))?$")
 
-VERSIONS_OPTIONAL = re.compile(r"^(\d+)(?:\.(\d+))?(?:\.(\d+))?(?:-(.+))?$")
+# MAJOR[.MINOR[.PATCH[-SUFFIX]]]: a part can only be present if the part before it is present
+VERSIONS_OPTIONAL = re.compile(r"^(\d+)(?:\.(\d+)(?:\.(\d+)(?:-(.+))?)?)?$")
 
 
 def _versions_pattern(strict):
